@@ -35,6 +35,7 @@ type loopInfo struct {
 	allowed   map[string][]Loc
 	headAlloc string
 	preSt     *State // state in which the loop is entered (before() in invariants)
+	headR     string // guard under which an iteration starts (after the invariants were assumed)
 }
 
 type Frame struct {
@@ -55,11 +56,13 @@ type Frame struct {
 	envVars      map[string]Val
 	refs         map[string][]refRec
 	callOrdinals map[*CallAnn]map[string]int
-	root         *Frame              // the frame of the function under contract (nil for that frame itself)
-	aliases      map[string][]string // recorded local name -> names it may go by now (renames)
-	argSrc       map[string]string   // parameter name -> the caller's source text of the argument (inlined frames)
-	posPath      string              // chain of call positions from the function under contract to this (inlined) frame
-	expLoops     map[string]string   // (top frame) loop descriptors numbered over the expanded text
+	root         *Frame                     // the frame of the function under contract (nil for that frame itself)
+	aliases      map[string][]string        // recorded local name -> names it may go by now (renames)
+	argSrc       map[string]string          // parameter name -> the caller's source text of the argument (inlined frames)
+	blockR       map[*ssa.BasicBlock]string // guard of each block executed so far
+	entryR       string                     // guard under which the function is entered
+	posPath      string                     // chain of call positions from the function under contract to this (inlined) frame
+	expLoops     map[string]string          // (top frame) loop descriptors numbered over the expanded text
 	aliasOK      bool
 	path         string // chain of call sites from the function under contract to this (inlined) frame
 	curBlock     *ssa.BasicBlock
@@ -102,6 +105,7 @@ func (c *Ctx) execFunc(fr *Frame, args []Val, st *State, R string) ([]Val, *Stat
 	fr.rcells = map[*ssa.Range]*Cell{}
 	fr.callOrd = map[string]int{}
 	fr.params = args
+	fr.entryR = R
 	for i, p := range fn.Params {
 		fr.vals[p] = args[i]
 	}
@@ -127,6 +131,10 @@ func (c *Ctx) execFunc(fr *Frame, args []Val, st *State, R string) ([]Val, *Stat
 		}
 		fr.curBlock = b
 		Rb := c.define("R_"+fn.Name()+"_"+fmt.Sprint(b.Index), SBool, tOr(conds...))
+		if fr.blockR == nil {
+			fr.blockR = map[*ssa.BasicBlock]string{}
+		}
+		fr.blockR[b] = Rb
 		cur := c.mergeStates(conds, states)
 		li := fr.loops[b]
 		// phis
@@ -159,6 +167,7 @@ func (c *Ctx) execFunc(fr *Frame, args []Val, st *State, R string) ([]Val, *Stat
 			li.hstate = cur.clone()
 			phiVals = li.phis
 			fr.assumeInvariants(li, cur, phiVals, Rb)
+			li.headR = Rb
 		}
 		for phi, v := range phiVals {
 			fr.vals[phi] = v
